@@ -125,6 +125,16 @@ ImplSmearingAdditive ==
      /\ Cur.additiveAtomsPointwise = "ok" /\ Cur.additiveXyzPointwise = "ok"
      /\ Cur.nprojAtoms = ses.nbands \div 3 /\ Cur.nprojXyz = ses.nbands
 
+(* WHICH DIVISION: the relative grid addresses a tetrahedron-method DOS hands   *)
+(* to the kernel (recorded at run_tetrahedron_method_dos) are those of a        *)
+(* shortest main diagonal of the MICROZONE (reciprocal vectors divided by the   *)
+(* mesh numbers), for the total and for every projection alike; sessions on     *)
+(* anisotropic meshes over primitive cells where the undivided reciprocal cell   *)
+(* has another shortest diagonal are part of every run                          *)
+ImplMainDiagonal ==
+  (IsDos /\ Cur.op \in {"total", "projected"} /\ Cur.method = "tetrahedron") =>
+     (Cur.diagUsed \in 0..3 /\ Cur.diagShortest)
+
 (* projections add up to the total at every frequency point *)
 ImplAdditive == (IsDos /\ Cur.op = "projected") => Cur.additive = "ok"
 (* the number of projections is the number of atoms / of Cartesian components *)
